@@ -85,7 +85,6 @@ class TimeTriggerDecorator(TriggerDecorator):
 
         if len(self.timespec) == 0:
             self.run_on_startup = True
-            return
 
         while "startup" in self.timespec:
             self.run_on_startup = True
@@ -93,6 +92,12 @@ class TimeTriggerDecorator(TriggerDecorator):
         while "shutdown" in self.timespec:
             self.run_on_shutdown = True
             self.timespec.remove("shutdown")
+
+        if isinstance(self.dm, WaitUntilDecoratorManager):
+            # task.wait_until waits for instants only: "startup" / "shutdown" entries (and an empty list)
+            # denote none and are ignored there, as in the legacy subsystem
+            self.run_on_startup = False
+            self.run_on_shutdown = False
 
     async def _cycle(self):
         if self.run_on_startup:
